@@ -88,7 +88,7 @@ impl Check for ArpResolution {
         "C06"
     }
     fn rule(&self) -> String {
-        "generated: one network (latency 0..50 ms) with 2..6 machines, each claiming 1..3 distinct addresses, optional subnet information per local address (mask 0..=32, default gateway claimed by some machine or by nobody), 1..8 resolver calls (machine, local address, target among claimed addresses incl. the resolver's own, unclaimed addresses and off-subnet addresses; start time 0..3 s with many coinciding), and a drop plan over ARP frames (none / the first k requests / a random subset of requests and replies); oracle: with target' = gateway when the reference subnet arithmetic puts the target off-subnet: Ok(mac) only if target' is claimed and mac is the MAC of the claiming machine's tap; if some request of this resolver's budget reached the owner and the owner's reply to it reached the resolver, the result must be Ok; an unclaimed target' gives Err no later than start + RESEND_TRIES*RESEND_DELAY (constants read from the code) and, for the first resolver of that target on its machine, not before that budget is spent; resolvers of one machine whose calls overlap in time and have the same target' return equal results; every call returns. non-trivial: an ARP frame was dropped while success was still required, or the gateway was substituted, or the target is unclaimed. distinct: hash of decoded configuration".into()
+        "generated: one network (latency 0..50 ms) with 2..6 machines, each claiming 1..3 distinct addresses, optional subnet information per local address (mask 0..=32, default gateway claimed by some machine or by nobody), 1..8 resolver calls (machine, local address, target among claimed addresses incl. the resolver's own, unclaimed addresses and off-subnet addresses; start time 0..3 s with many coinciding), and a drop plan over ARP frames (none / the first k requests / a random subset of requests and replies); oracle: with target' = gateway when the reference subnet arithmetic puts the target off-subnet: Ok(mac) only if target' is claimed and mac is the MAC of the claiming machine's tap; if some request of this resolver's budget reached the owner and the owner's reply to it reached the resolver, the result must be Ok, and so it must if a request reached the owner (which may be the resolving machine itself) in time for an answer and no reply from the owner to this resolver was dropped (the owner has to answer); an unclaimed target' gives Err no later than start + RESEND_TRIES*RESEND_DELAY (constants read from the code) and, for the first resolver of that target on its machine, not before that budget is spent; resolvers of one machine whose calls overlap in time and have the same target' return equal results; every call returns. non-trivial: an ARP frame was dropped while success was still required, or the gateway was substituted, or the target is unclaimed. distinct: hash of decoded configuration".into()
     }
     fn assumptions(&self) -> Vec<String> {
         vec!["one network: multi-homed resolvers are outside the statement".into(), "claimed addresses are pairwise distinct".into()]
@@ -279,6 +279,13 @@ impl Check for ArpResolution {
                         p.oper == Operation::Request && f.sender == me && p.target_ip.to_u32() == t && !f.dropped && f.t >= r.start && f.t <= r.end && f.deliveries.iter().any(|d| d.0 == macs[o])
                             && arp_frames.iter().any(|(g, q)| q.oper == Operation::Reply && g.sender == macs[o] && q.sender_ip.to_u32() == t && g.dest == Some(me) && !g.dropped && g.t >= f.t && g.deliveries.iter().any(|d| d.0 == me && d.1 < r.end))
                     });
+                    // a request of this call reached the owner in time for an answer and no reply from the owner to this
+                    // resolver was lost: the owner must have answered (also when the owner is the resolving machine itself)
+                    let reply_lost = arp_frames.iter().any(|(g, q)| q.oper == Operation::Reply && g.sender == macs[o] && g.dest == Some(me) && g.dropped);
+                    let asked_in_time = arp_frames.iter().any(|(f, p)| {
+                        p.oper == Operation::Request && f.sender == me && p.target_ip.to_u32() == t && !f.dropped && f.t >= r.start && f.t + Duration::from_millis(2 * latency + 1) < r.end && f.deliveries.iter().any(|d| d.0 == macs[o])
+                    });
+                    ensure!(!(asked_in_time && !reply_lost), "success_when_exchange_gets_through", "owner_did_not_answer", "call {id}: resolving {} failed although a request reached its owner (machine {o}{}) in time and no reply was lost", Ipv4Address::from(t), if o == c.0 { ", the resolving machine itself" } else { "" });
                     ensure!(!got_through, "success_when_exchange_gets_through", "failed_despite_exchange", "call {id}: resolving {} failed although a request reached its owner (machine {o}) and the reply reached the resolver within the call", Ipv4Address::from(t));
                 }
             }
